@@ -4,7 +4,7 @@ import (
 	"fmt"
 	"go/token"
 	"go/types"
-	"unicode/utf8"
+	"math/big"
 )
 
 // symstr is a string with concrete length whose bytes are uint8 constants or symv terms.
@@ -83,12 +83,104 @@ func symStrBinop(op token.Token, x, y value) value {
 	panic(unsupported("string binop " + op.String() + " on symbolic string"))
 }
 
-// runeToStr converts a symbolic rune/byte to a 1-byte string, deciding that it is ASCII.
-func runeToStr(x symv) value {
-	if !decide(tAnd(tCmp("<=", tInt(0), x.t), tCmp("<", x.t, tInt(0x80)))) {
-		panic(unsupported("non-ASCII symbolic rune to string"))
+// nonNegCopy returns a fresh variable in [0, hi] constrained to equal t (which the path condition
+// already confines to that range): the definitional div/mod rules need a syntactic lower bound.
+func nonNegCopy(t *Term, hi int64) *Term {
+	if t.lo != nil && t.lo.Sign() >= 0 {
+		return t
 	}
-	return symstr{symv{types.Uint8, x.t}}
+	p := curPath()
+	v := p.fresh("nn", big.NewInt(0), big.NewInt(hi))
+	p.side(tCmp("=", v, t))
+	v.def = &termDef{kind: "copy", of: t}
+	return v
+}
+
+func termDivMod(t *Term, c int64) (q, r *Term) {
+	u64 := types.Typ[types.Uint64]
+	x := mkSym(types.Uint64, t)
+	return termOf(symBinop(token.QUO, u64, x, uint64(c))), termOf(symBinop(token.REM, u64, x, uint64(c)))
+}
+
+// runeToStr converts a symbolic rune/byte to a string: the UTF-8 encoding of the rune (the
+// replacement character for values that are no valid code points), as the language defines the
+// conversion. The length is decided on the path (1..4 bytes).
+func runeToStr(x symv) value {
+	r := x.t
+	if decide(tAnd(tCmp("<=", tInt(0), r), tCmp("<", r, tInt(0x80)))) {
+		return symstr{symv{types.Uint8, r}}
+	}
+	invalid := tOr(tOr(tCmp("<", r, tInt(0)), tCmp("<", tInt(0x10FFFF), r)), tAnd(tCmp("<=", tInt(0xD800), r), tCmp("<=", r, tInt(0xDFFF))))
+	if decide(invalid) {
+		return symstr{byte(0xEF), byte(0xBF), byte(0xBD)}
+	}
+	rr := nonNegCopy(r, 0x10FFFF)
+	b := func(base int64, t *Term) value { return symv{types.Uint8, tAdd(tInt(base), t)} }
+	q1, m1 := termDivMod(rr, 64) // r div 64, r mod 64
+	if decide(tCmp("<", r, tInt(0x800))) {
+		return symstr{b(0xC0, q1), b(0x80, m1)}
+	}
+	q2, m2 := termDivMod(q1, 64) // r div 4096, (r div 64) mod 64
+	if decide(tCmp("<", r, tInt(0x10000))) {
+		return symstr{b(0xE0, q2), b(0x80, m2), b(0x80, m1)}
+	}
+	q3, m3 := termDivMod(q2, 64)
+	return symstr{b(0xF0, q3), b(0x80, m3), b(0x80, m2), b(0x80, m1)}
+}
+
+// decodeRuneAt is the UTF-8 decoding step of `range` over a string (and of the conversion to
+// []rune) at position i of a string whose bytes may be symbolic: it returns the rune as a term
+// and the number of bytes consumed, deciding the shape of the sequence on the path. Invalid
+// sequences yield the replacement character and consume one byte (Go spec, "For statements").
+func decodeRuneAt(s symstr, i int) (value, int) {
+	bt := func(j int) *Term { return termOf(s[j]) }
+	in := func(t *Term, lo, hi int64) *Term { return tAnd(tCmp("<=", tInt(lo), t), tCmp("<=", t, tInt(hi))) }
+	bad := func() (value, int) { return rune(0xFFFD), 1 }
+	b0 := bt(i)
+	if decide(tCmp("<", b0, tInt(0x80))) {
+		if c, ok := s[i].(byte); ok {
+			return rune(c), 1
+		}
+		return symv{types.Int32, b0}, 1
+	}
+	size, lo1, hi1, base := 0, int64(0x80), int64(0xBF), int64(0)
+	switch {
+	case decide(tOr(in(b0, 0x80, 0xC1), in(b0, 0xF5, 0xFF))):
+		return bad()
+	case decide(in(b0, 0xC2, 0xDF)):
+		size, base = 2, 0xC0
+	case decide(tCmp("=", b0, tInt(0xE0))):
+		size, base, lo1 = 3, 0xE0, 0xA0
+	case decide(tCmp("=", b0, tInt(0xED))):
+		size, base, hi1 = 3, 0xE0, 0x9F
+	case decide(in(b0, 0xE1, 0xEF)):
+		size, base = 3, 0xE0
+	case decide(tCmp("=", b0, tInt(0xF0))):
+		size, base, lo1 = 4, 0xF0, 0x90
+	case decide(tCmp("=", b0, tInt(0xF4))):
+		size, base, hi1 = 4, 0xF0, 0x8F
+	default:
+		size, base = 4, 0xF0
+	}
+	if len(s)-i < size {
+		return bad()
+	}
+	if !decide(in(bt(i+1), lo1, hi1)) {
+		return bad()
+	}
+	for j := 2; j < size; j++ {
+		if !decide(in(bt(i+j), 0x80, 0xBF)) {
+			return bad()
+		}
+	}
+	r := tSub(b0, tInt(base))
+	for j := 1; j < size; j++ {
+		r = tAdd(tMulC(r, big.NewInt(64)), tSub(bt(i+j), tInt(0x80)))
+	}
+	if r.op == "const" {
+		return rune(r.val.Int64()), size
+	}
+	return symv{types.Int32, r}, size
 }
 
 // strLess is the lexicographic order on byte strings as one term.
@@ -117,30 +209,7 @@ func (it *symstrIter) next() tuple {
 		return tuple{false, nil, nil}
 	}
 	i := it.i
-	switch b := it.s[i].(type) {
-	case symv:
-		if !decide(tCmp("<", b.t, tInt(0x80))) {
-			panic(unsupported("range over a string with a symbolic non-ASCII byte"))
-		}
-		it.i++
-		return tuple{true, i, symv{types.Int32, b.t}}
-	case byte:
-		if b < 0x80 {
-			it.i++
-			return tuple{true, i, rune(b)}
-		}
-		// concrete lead byte: gather the concrete continuation bytes
-		var buf []byte
-		for j := i; j < len(it.s) && j < i+4; j++ {
-			c, ok := it.s[j].(byte)
-			if !ok {
-				break
-			}
-			buf = append(buf, c)
-		}
-		r, n := utf8.DecodeRune(buf)
-		it.i += n
-		return tuple{true, i, r}
-	}
-	panic(unsupported("range over symstr: unexpected element"))
+	r, n := decodeRuneAt(it.s, i)
+	it.i += n
+	return tuple{true, i, r}
 }
